@@ -175,12 +175,28 @@ pub mod tokio_stream {
     pub use super::*;
     pub fn once<M>(m: M) -> (r: Once<M>) ensures r.item == m { Once { item: m } }
 }
+'''
+
+GENERIC = r'''
+// the transport's error type converts into a boxed error (`T::Error: Into<BoxError>`): that conversion, as a value of the
+// `dyn Error` model of unit errmap
+pub uninterp spec fn boxed<E>(e: E) -> DynError;
 impl Status {
-    // A-tonic-status-02: Status::from_error_generic turns a transport error into a status (source-chain inspection is not modelled)
+    // A-tonic-status-02: Status::from_error_generic turns a transport error into a status: the status `generic(e)`, which is
+    // what the boxed error means (clauses G1 / G2 of unit errmap, PROVED there on the real body for a boxed error; linked here
+    // as a callee contract through `boxed`)
     pub uninterp spec fn generic<E>(e: E) -> Status;
     #[verifier::external_body]
-    pub fn from_error_generic<E>(e: E) -> (r: Status) ensures r == Status::generic(e) { unimplemented!() }
+    pub fn from_error_generic<E>(e: E) -> (r: Status)
+        ensures r == Status::generic(e),
+            box_meaning(boxed(e)) matches Some(m) ==> agrees(r, m),
+            box_meaning(boxed(e)) is None ==> r.code == Code::Unknown
+    { unimplemented!() }
 }
+// the same two clauses about the spec-level value (from_error_generic(e) IS generic(e))
+pub broadcast axiom fn axiom_generic_means<E>(e: E)
+    ensures box_meaning(boxed(e)) matches Some(m) ==> agrees(#[trigger] Status::generic(e), m),
+            box_meaning(boxed(e)) is None ==> Status::generic(e).code == Code::Unknown;
 '''
 
 STREAM_API = r'''
@@ -269,6 +285,9 @@ def build():
     common.metadata_core(u)
     common.status_decls(u)
     common.status_assumed(u)
+    from units import errmap
+    u.item('tonic/src/status.rs', 'struct', 'TimeoutExpired')
+    u.raw('// ---- the `dyn Error` model and the meaning of errors (unit errmap), for the transport error of a call ----\n' + errmap.model_text())
     u.raw(URI)
     u.item(CO, 'enum', 'CompressionEncoding', derives='Clone, Copy, PartialEq, Eq, Structural')
     u.item(CO, 'struct', 'EnabledCompressionEncodings', derives='Clone, Copy')
@@ -387,6 +406,7 @@ def build():
 
     u.close('}')
     u.raw(ASYNC_CODEC)
+    u.raw(GENERIC)
     u.raw(GRPCSVC)
     u.raw(STREAM_API)
     u.raw('''
@@ -428,6 +448,21 @@ pub open spec fn unary_outcome<M2>(r0: Result<Response<Streaming<M2>>, Status>, 
     }
 }
 ''')
+    u.raw('''
+// C14 / C09 on the client: a call whose transport fails returns the status the error means - UNAVAILABLE while no connection
+// can be made (a ConnectError in the cause chain), CANCELLED when the locally configured deadline cut it off
+pub proof fn lemma_transport_error_is_what_it_means<M2, C: Codec, RB, E>(cfg: GrpcConfig, codec: C, e: E, r: Result<Response<Streaming<M2>>, Status>)
+    requires call_outcome::<M2, C, RB, E>(cfg, codec, Err(e), r)
+    ensures
+        r is Err,
+        box_meaning(boxed(e)) matches Some(m) ==> agrees(r->Err_0, m),
+        (!(boxed(e).kind is Status) && !(boxed(e).kind is H2) && chain_meaning(boxed(e)) == Some(Meaning::Known(Code::Unavailable))) ==> r->Err_0.code == Code::Unavailable,
+        (!(boxed(e).kind is Status) && !(boxed(e).kind is H2) && chain_meaning(boxed(e)) == Some(Meaning::Known(Code::Cancelled))) ==> r->Err_0.code == Code::Cancelled,
+        box_meaning(boxed(e)) is None ==> r->Err_0.code == Code::Unknown,
+{
+    broadcast use axiom_generic_means;
+}
+''', props=['C02', 'C09', 'C14'])
     u._emit('impl<T> Grpc<T> {'); u._open_header = 'impl<T> Grpc<T> {'
     AW = [lambda t: t.sub_code('R12', r'\bwhere\s+T: GrpcService<Body>[^{]*', 'where T: GrpcService<Body>, C: Codec<Encode = M1, Decode = M2>, S: Stream<Item = M1>')]
     def hoist_encoder(t):
@@ -448,7 +483,7 @@ pub open spec fn unary_outcome<M2>(r0: Result<Response<Streaming<M2>>, Status>, 
              Clause('S1_the_transport_is_called_exactly_once_with_the_prepared_grpc_request',
                     'final(self).inner.log().len() == old(self).inner.log().len() + 1 && final(self).inner.log().drop_last() == old(self).inner.log() && sent_request(final(self).inner.log().last(), old(self).config, request, path, codec)'),
              Clause('S2_transport_error_becomes_the_call_error_and_a_response_head_is_interpreted_as_the_protocol_says',
-                    'call_outcome(old(self).config, codec, final(self).inner.answer(), r)'),
+                    'call_outcome(old(self).config, codec, final(self).inner.answer(), r)', ['C02', 'C09', 'C14']),
              Clause('S4_configuration_untouched', 'final(self).config == old(self).config'),
          ])
     ONE = 'final(self).inner.log().len() == old(self).inner.log().len() + 1 && final(self).inner.log().drop_last() == old(self).inner.log()'
@@ -459,7 +494,7 @@ pub open spec fn unary_outcome<M2>(r0: Result<Response<Streaming<M2>>, Status>, 
          ensures=[
              Clause('CS1_the_transport_is_called_exactly_once_with_the_prepared_grpc_request', ONE + ' && sent_request(final(self).inner.log().last(), old(self).config, request, path, codec)'),
              Clause('CS2_first_message_then_trailers_or_the_error_with_all_metadata',
-                    'exists|r0: Result<Response<Streaming<M2>>, Status>| #[trigger] call_outcome(old(self).config, codec, final(self).inner.answer(), r0) && unary_outcome(r0, r)'),
+                    'exists|r0: Result<Response<Streaming<M2>>, Status>| #[trigger] call_outcome(old(self).config, codec, final(self).inner.answer(), r0) && unary_outcome(r0, r)', ['C02', 'C09', 'C14']),
              Clause('CS3_configuration_untouched', 'final(self).config == old(self).config'),
          ])
     AW1 = [lambda t: t.sub_code('R12', r'\bwhere\s+T: GrpcService<Body>[^{]*', 'where T: GrpcService<Body>, C: Codec<Encode = M1, Decode = M2>')]
@@ -469,7 +504,7 @@ pub open spec fn unary_outcome<M2>(r0: Result<Response<Streaming<M2>>, Status>, 
          ensures=[
              Clause('U1_one_request_message', ONE + ' && sent_request(final(self).inner.log().last(), old(self).config, ' + ONCE + ', path, codec)'),
              Clause('U2_outcome_as_for_a_single_response_call',
-                    'exists|r0: Result<Response<Streaming<M2>>, Status>| #[trigger] call_outcome(old(self).config, codec, final(self).inner.answer(), r0) && unary_outcome(r0, r)'),
+                    'exists|r0: Result<Response<Streaming<M2>>, Status>| #[trigger] call_outcome(old(self).config, codec, final(self).inner.answer(), r0) && unary_outcome(r0, r)', ['C02', 'C09', 'C14']),
          ])
     u.fn(G, 'server_streaming', within='impl<T> Grpc<T>', sig_edits=AW1,
          closures={0: dict(params='m: M1', ret='(o: Once<M1>)', ensures=['o.item == m'])},
